@@ -35,6 +35,9 @@ CLAIMED = {
  'C10': dict(level='model_checking', technique='bounded symbolic execution (z3) of one build_file call from symbolic states of the target and all ancestors, with injected mkdir failures; contract assertions plus comparison with the reference',
              text='Target and every ancestor are symbolic (absent, foreign file, foreign directory, stale output, stale directory), the failure mode and the level at which mkdir fails are holes; success and failure clauses of the contract are asserted directly on the real state and the virtual view right after the call and on the tree after the build.',
              note='Trusted: environment model, reference model, z3; over-long names modelled as a failing mkdir.'),
+ 'C11': dict(level='model_checking', technique='symbolic execution (z3) of API edges with in-place mutations of passed / returned values; later builds compared with the pristine value',
+             text='For each value-carrying edge (arguments, fresh and cached return values of subbuild/build_file at root and nested, list_dir and walk results) user code performs an in-place mutation (5 kinds, symbolic element) and the following builds must return the pristine value, must not re-execute, and must still see real directory changes.',
+             note='Trusted: environment model, proxies, z3; determinism of the user function defines the pristine value.'),
 }
 NA_REASON = 'check not built yet in this round (work in progress; see DESIGN.md section 12)'
 
